@@ -295,8 +295,104 @@ def check_eig(mon, L3, rng, case_id):
     return kind
 
 
+def check_transpiled(mon, seed, lo, hi):
+    """The helpers as the equations use them: transpiled, called from a
+    generated evaluator, one system per particle, against the same Python
+    functions (bit for bit: arithmetic only, same order of operations)."""
+    import pysph.sph.wc.linalg as L
+    from pysph.base.utils import get_particle_array
+    from pysph.tools.sph_evaluator import SPHEvaluator
+    from vlib.linkit import VLinalg
+    N = hi - lo
+    A = np.zeros((N, 36))
+    B = np.zeros((N, 36))
+    V = np.zeros((N, 6))
+    ns = np.zeros(N, dtype=np.int32)
+    kinds = []
+    for k in range(N):
+        rng = np.random.default_rng(common.case_seed(PROP, 'tr', seed, lo + k))
+        n = int(rng.integers(1, 7))
+        kind, a = gen_matrix(rng, n)
+        kinds.append(kind)
+        ns[k] = n
+        A[k, :n * n] = a.ravel()
+        B[k, :n * n] = rng.normal(size=n * n)
+        V[k, :n] = rng.normal(size=n) * 10.0 ** rng.uniform(-3, 3)
+    pa = get_particle_array(name='a', x=np.arange(N) * 1.0, h=np.ones(N))
+    pa.add_property('n', type='int', data=ns)
+    for nm, st, data in (('A', 36, A), ('B', 36, B), ('vec', 6, V),
+                         ('AB', 36, None), ('Av', 6, None), ('I', 36, None),
+                         ('sol', 6, None), ('rc', 1, None), ('dot', 1, None)):
+        pa.add_property(nm, stride=st, data=None if data is None
+                        else data.ravel())
+    import contextlib
+    import io
+    with contextlib.redirect_stdout(io.StringIO()):
+        ev = SPHEvaluator([pa], [VLinalg(dest='a', sources=None)], dim=1)
+        ev.evaluate()
+    g = lambda nm, st: pa.get(nm).reshape(N, st)       # noqa
+    AB, Av, I_, X, RC, DOT = (g('AB', 36), g('Av', 6), g('I', 36), g('sol', 6),
+                              g('rc', 1), g('dot', 1))
+    for k in range(N):
+        n = int(ns[k])
+        a = A[k, :36].tolist()
+        b = B[k, :36].tolist()
+        v = V[k, :6].tolist()
+        ab = [7250.0] * 36
+        ident = [-3500.0] * 36
+        av = [1125.0] * 6
+        res = [9.5] * 6
+        aug = [-77.0] * 42
+        L.mat_mult(a, b, n, ab)
+        L.mat_vec_mult(a, v, n, av)
+        L.identity(ident, n)
+        d = L.dot(v, av, n)
+        L.augmented_matrix(a, v, n, 1, n, aug)
+        try:
+            rc = L.gj_solve(aug, n, 1, res)
+        except ZeroDivisionError:
+            rc = None
+        mon.c('transpiled_systems')
+        case = dict(id=lo + k, n=n, kind=kinds[k], A=A[k, :n * n].tolist(),
+                    v=V[k, :n].tolist())
+        for lab, got, want in (('mat_mult', AB[k], ab),
+                               ('mat_vec_mult', Av[k], av),
+                               ('identity', I_[k], ident),
+                               ('dot', DOT[k], [d])):
+            w = np.array(want, dtype=float)
+            if not np.array_equal(np.asarray(got)[:len(w)], w,
+                                  equal_nan=True):
+                j = int(np.nonzero(~((np.asarray(got)[:len(w)] == w) | (
+                    np.isnan(w))))[0][0])
+                mon.bad('transpiled:' + lab, 'entry %d: transpiled %r, '
+                        'Python %r (n=%d)' % (j, float(got[j]), float(w[j]),
+                                              n), case)
+        if rc is None:
+            continue
+        if float(RC[k, 0]) != float(rc):
+            mon.bad('transpiled:gj_solve', 'return code: transpiled %r, '
+                    'Python %r (n=%d, kind %s)' % (float(RC[k, 0]), rc, n,
+                                                   kinds[k]), case)
+        elif rc == 0:
+            w = np.array(res, dtype=float)
+            if not np.array_equal(X[k], w, equal_nan=True):
+                # division and fabs are exact too; allow nothing but the
+                # bits to differ only if both are non-finite
+                if np.all(np.isfinite(w)) or np.all(np.isfinite(X[k])):
+                    j = int(np.nonzero(X[k] != w)[0][0])
+                    mon.bad('transpiled:gj_solve', 'solution entry %d: '
+                            'transpiled %r, Python %r (n=%d, kind %s)' % (
+                                j, float(X[k][j]), float(w[j]), n,
+                                kinds[k]), case)
+
+
 def work(item):
     mon = Mon()
+    if item.get('kind') == 'transpiled':
+        check_transpiled(mon, item['seed'], item['lo'], item['hi'])
+        return dict(evaluations=item['hi'] - item['lo'],
+                    distinct=['t%d' % item['lo']], violations=mon.viol,
+                    counters=mon.cnt, samples=[], sets=dict(kinds=[]))
     import pysph.sph.wc.linalg as L
     import pysph.base.linalg3 as L3
     if 'replay' in item:
@@ -334,11 +430,15 @@ def run(tier):
     na = 6000 if tier == 'quick' else 60000
     items += [dict(seed=common.seed() + 7919, lo=a, hi=b, flavour='asan')
               for a, b in harness.chunks(na, 1000)]
+    nt = 4000 if tier == 'quick' else 60000
+    items += [dict(seed=common.seed(), kind='transpiled', lo=a, hi=b,
+                   flavour='plain') for a, b in harness.chunks(nt, 500)]
     m = harness.execute('checks.c13', items, timeout=3600)
     v = common.Verdict(PROP)
     cov = harness.san_violations(m, v)
     for key in ('gj_asserted', 'eig_asserted', 'products_compared',
-                'augmented_compared', 'transform_compared'):
+                'augmented_compared', 'transform_compared',
+                'transpiled_systems'):
         if m.counters.get(key, 0) < 100:
             v.inconclusive_because('monitor %s fired %d times' % (
                 key, m.counters.get(key, 0)))
